@@ -517,6 +517,8 @@ def compare(c, io, drv):
                 if p != 0:
                     out.append(("model", "source %d is not a coefficient of the filter but was read %d times" % (i, p)))
                 continue
+            if c["entry"] == "expr" and "err" in io:
+                continue          # which tee copy is ahead when the generator dies is not modelled
             if not (L <= p <= L + 1) or (L == n and p != L):
                 out.append(("spec", "source %d was read %d times for %d outputs (input of %d items)" % (i, p, L, n)))
         if not (L <= io["xpulls"] <= L + 1):
@@ -543,13 +545,13 @@ def _diff(got, want):
 
 
 def _used_sources(c, io, model):
-    """indices of the sources that are coefficients of the normalised filter (a source multiplied
-    into a dropped term does not exist for the loop); for "call" cases: those in num/den"""
+    """indices of the sources that are coefficients of the filter the loop is generated from"""
     if model.get("ir", {}).get("kind") == "const":
         return set()          # the all-zero filter: `for unused in seq: yield zero` reads no coefficient
     if c["entry"] == "expr":
-        return set(_tree_sources(c["tree"])) if not model.get("unused_sources") else \
-            set(_tree_sources(c["tree"])) - set(model["unused_sources"])
+        # a Stream multiplied into a term that the arithmetic dropped (`f * 0`) is no coefficient any
+        # more: such a source is never read at all; every other one is read once per output
+        return {i for i, p in enumerate(io.get("pulls", [])) if p != 0}
     return {v["src"] for _, v in c["num"] + c["den"] if is_src(v)}
 
 
@@ -702,6 +704,76 @@ def _call_case(rng, max_len, p_stream=0.45, malformed=False):
             "xs": [_sample(rng) for _ in range(n)]}
 
 
+def _num_tree(rng, srcs, n, pool, allow_const=True):
+    """a tree that evaluates to a number or a Stream"""
+    r = rng.random()
+    if allow_const and r < 0.3:
+        return ["c", rng.choice([1, -1, 2, -2, 3])]
+    if r < 0.8 or len(srcs) >= 5:
+        srcs.append(_source(rng, n, pool, early=False if rng.random() < 0.8 else None))
+        return ["s", len(srcs) - 1]
+    op = rng.choice(["add", "sub", "mul", "neg"])
+    if op == "neg":
+        return ["neg", _num_tree(rng, srcs, n, pool, False)]
+    a = _num_tree(rng, srcs, n, pool, False)
+    b = _num_tree(rng, srcs, n, pool, True)
+    return [op, a, b] if rng.random() < 0.5 else [op, b, a]
+
+
+def _term(rng, srcs, n, kmin=0):
+    k = rng.randint(kmin, kmin + 2)
+    form = rng.random()
+    if form < 0.2:
+        return ["z", k]
+    cf = _num_tree(rng, srcs, n, SVAL_POOL)
+    return ["mul", cf, ["z", k]] if form < 0.7 else ["mul", ["z", k], cf]
+
+
+def _fir(rng, srcs, n, lead=None):
+    """a sum of terms; `lead`: the delay-0 term (a tree) that keeps a quotient causal"""
+    t = lead if lead is not None else _term(rng, srcs, n)
+    for _ in range(rng.choice([0, 1, 1, 2]) if lead is None else rng.choice([1, 1, 2])):
+        op = rng.choice(["add", "add", "sub"])
+        t = [op, t, _term(rng, srcs, n, 1 if lead is not None else 0)]
+    return t
+
+
+def _filter_tree(rng, srcs, n, depth):
+    r = rng.random()
+    if depth == 0 or r < 0.25:
+        return _fir(rng, srcs, n)
+    if r < 0.45:
+        # a recursive filter: numerator / (a0 + …), a0 a non-zero number or a non-zero Stream
+        if rng.random() < 0.35 and len(srcs) < 5:
+            srcs.append(_source(rng, n, GVAL_POOL, early=False if rng.random() < 0.8 else None))
+            lead = ["s", len(srcs) - 1]
+        else:
+            lead = ["c", rng.choice([1, 1, -1, 2, -3])]
+        return ["div", _filter_tree(rng, srcs, n, depth - 1), _fir(rng, srcs, n, lead=lead)]
+    if r < 0.8:
+        op = rng.choice(["add", "sub", "mul", "mul"])
+        return [op, _filter_tree(rng, srcs, n, depth - 1), _filter_tree(rng, srcs, n, depth - 1)]
+    f = _filter_tree(rng, srcs, n, depth - 1)
+    form = rng.random()
+    if form < 0.15:
+        return ["neg", f]
+    if form < 0.5:
+        cf = _num_tree(rng, srcs, n, SVAL_POOL)
+        return rng.choice([["mul", cf, f], ["mul", f, cf], ["add", f, cf], ["add", cf, f], ["sub", f, cf], ["sub", cf, f]])
+    if len(srcs) < 5:
+        srcs.append(_source(rng, n, GVAL_POOL, early=False if rng.random() < 0.8 else None))
+        return rng.choice([["div", f, ["s", len(srcs) - 1]], ["mul", ["s", len(srcs) - 1], f]])
+    return ["mul", ["c", rng.choice([2, -1, 3])], f]
+
+
+def _expr_case(rng, max_len):
+    n = rng.choice([0, 1, 2, 3, 5, rng.randint(0, max_len)])
+    srcs = []
+    tree = _filter_tree(rng, srcs, n, rng.choice([1, 1, 2, 2, 3]))
+    return {"entry": "expr", "tree": tree, "srcs": srcs, "mem": None,
+            "zero": rng.choice(["0/1", "0/1", "0/1", "7/1"]), "xs": [_sample(rng) for _ in range(n)]}
+
+
 def generate(rng, tier, scale=1):
     quick = tier == "quick"
     cases = []
@@ -712,6 +784,8 @@ def generate(rng, tier, scale=1):
         cases.append(_call_case(rng, max_len))
     for _ in range((150 if quick else 2000) * scale):
         cases.append(_call_case(rng, max_len, malformed=True))
+    for _ in range((1200 if quick else 20000) * scale):
+        cases.append(_expr_case(rng, 8 if quick else 16))
     return cases
 
 
@@ -827,16 +901,49 @@ def shrink(c):
             yield dict(c, tree=t)
 
 
-def _tree_shrinks(t):
+def _is_filter(t):
+    if t[0] == "z":
+        return True
+    if t[0] in ("c", "s"):
+        return False
+    return any(_is_filter(u) for u in t[1:])
+
+
+def _const_only(t):
+    if t[0] == "c":
+        return True
+    if t[0] in ("z", "s"):
+        return False
+    return all(_const_only(u) for u in t[1:])
+
+
+def _valid_tree(t):
+    """stays in the exact regime: no division by a plain number (1/int is a float in Python)"""
+    if t[0] in ("z", "c", "s"):
+        return True
+    if t[0] == "div" and not _is_filter(t[2]) and _const_only(t[2]):
+        return False
+    return all(_valid_tree(u) for u in t[1:])
+
+
+def _tree_shrinks_raw(t):
     if t[0] in ("z", "c", "s"):
         if t[0] == "c" and val(t[1]) not in (0, 1):
             yield ["c", 1]
+        if t[0] == "z" and t[1] > 0:
+            yield ["z", t[1] - 1]
         return
     for u in t[1:]:
         yield u
     for i in range(1, len(t)):
-        for u in _tree_shrinks(t[i]):
+        for u in _tree_shrinks_raw(t[i]):
             yield t[:i] + [u] + t[i + 1:]
+
+
+def _tree_shrinks(t):
+    for u in _tree_shrinks_raw(t):
+        if _is_filter(u) and _valid_tree(u):
+            yield u
 
 
 def neighbours(c):
